@@ -307,9 +307,18 @@ impl<'p, W, R, T> CompilationScope<'p, W, R, T> {
         spec: XFuncSpec,
         func: XStaticFunction<W, R, T>,
     ) -> Result<XExpr<W, R, T>, CompilationError> {
+        // a lambda is a value from the moment it is created: what its body waits for must be ready here
+        // (or becomes a requirement of the enclosing function)
+        let mut forward_requirements: Vec<_> = if let XStaticFunction::UserFunction(func) = &func {
+            func.forward_requirements.iter().cloned().collect()
+        } else {
+            Default::default()
+        };
+        forward_requirements.sort();
+        self.require_forwards(forward_requirements.iter().cloned())?;
         let cell_idx = self.cells.ipush(Cell::Variable {
             t: spec.xtype(),
-            forward_requirements: Default::default(),
+            forward_requirements,
         });
         self.declarations
             .push(Declaration::Function { cell_idx, func });
